@@ -80,7 +80,7 @@ func C02(c *core.Ctx) {
 		c02Helpers(c, i)
 	}
 	// (d) raw bytes reach the wire verbatim
-	sizes := []int{1, 2, 31, 2047, 2048, 2049, 4095, 4096, 4097, 5*2048 + 3}
+	sizes := []int{1, 2, 31, 2047, 2048, 2049, 4095, 4096, 4097, 5*2048 + 3, 65531, 65532, 65536, 70000, 200016}
 	for k := 0; k < c.N(6, 200); k++ {
 		sizes = append(sizes, 1+r.Intn(7000))
 	}
